@@ -67,6 +67,18 @@ RatVal(t, ctx) ==
     [] t.k = "pow" -> LET a == RatVal(t.l, ctx)  b == RatVal(t.r, ctx) IN
                         IF a = UndefQ \/ b = UndefQ \/ IsNaN(a) \/ IsNaN(b) THEN UndefQ ELSE PowQ(a, b)
     [] OTHER -> UndefQ
+(* ---- sign view: expressions that are non-negative by construction. IEEE arithmetic keeps them non-negative INCLUDING the sign
+        bit of a zero and the sign of an infinity (fabs clears the sign bit; pow of a non-negative base, sums, products and guarded
+        quotients of non-negatives are never negative and never -0.0); they may be NaN. Literals and bindings are non-negative when
+        their exact value is >= 0 (the harness never binds a float negative zero). ---- *)
+RECURSIVE NonNeg(_,_)
+NonNeg(t, ctx) ==
+  CASE t.k = "c" -> (IF t.ty = "int" THEN t.b.s >= 0 ELSE t.q[2] > 0 /\ t.q[1] >= 0)
+    [] t.k = "v" -> (LET bd == Binding(ctx, t.id) IN bd.st = "bound" /\ (IF bd.ty = "int" THEN bd.b.s >= 0 ELSE bd.q[2] > 0 /\ bd.q[1] >= 0))
+    [] t.k \in {"abs", "fact"} -> TRUE
+    [] t.k \in {"add", "mul", "div"} -> NonNeg(t.l, ctx) /\ NonNeg(t.r, ctx)
+    [] t.k = "pow" -> NonNeg(t.l, ctx)
+    [] OTHER -> FALSE
 (* ---- forward error bound: the magnitude of the computation (every operation on absolute values) ---- *)
 RECURSIVE MagVal(_,_)
 MagVal(t, ctx) ==
